@@ -48,6 +48,7 @@ type Report struct {
 	Verbose  bool
 	Samples  []map[string]any
 	NQueries int
+	DeadNotes []string
 }
 
 func buildReport(ck *Checker, prop, tier string, seed int, results []*funcResult, verbose bool) *Report {
@@ -65,7 +66,10 @@ func buildReport(ck *Checker, prop, tier string, seed int, results []*funcResult
 		}
 		byName := map[string]*oblSummary{}
 		var order []string
-		probeTotal, probeFeasible := 0, 0
+		type edge struct{ a, b int }
+		allEdges := map[edge]bool{}
+		liveEdges := map[edge]bool{}
+		retPaths, retFeasible := 0, 0
 		for _, o := range fr.Obligations {
 			rep.NQueries++
 			if o.Kind == "cover" {
@@ -74,10 +78,23 @@ func buildReport(ck *Checker, prop, tier string, seed int, results []*funcResult
 				}
 				continue
 			}
-			if strings.HasSuffix(o.Name, "#ensures[!false]") {
-				probeTotal++
-				if o.Status != "unsat" {
-					probeFeasible++
+			if o.Kind == "pathcover" {
+				live := o.Status != "unsat"
+				if len(o.Trace) > 0 && o.Trace[len(o.Trace)-1] == -1 {
+					retPaths++
+					if live {
+						retFeasible++
+					}
+				}
+				for k := 0; k+1 < len(o.Trace); k++ {
+					e := edge{o.Trace[k], o.Trace[k+1]}
+					if e.b < 0 {
+						continue
+					}
+					allEdges[e] = true
+					if live {
+						liveEdges[e] = true
+					}
 				}
 				continue
 			}
@@ -108,8 +125,31 @@ func buildReport(ck *Checker, prop, tier string, seed int, results []*funcResult
 				}
 			}
 		}
-		if fr.Ctr != nil && !fr.Ctr.Trusted && fr.Err == nil && probeTotal > 0 && probeFeasible == 0 && len(fr.Ctr.Ensures) > 0 {
+		if fr.Ctr != nil && !fr.Ctr.Trusted && fr.Err == nil && retPaths > 0 && retFeasible == 0 && len(fr.Ctr.Ensures) > 0 {
 			rep.Vacuous = append(rep.Vacuous, fr.Name+": no return path is feasible under the contract's assumptions")
+		}
+		var dead []string
+		for e := range allEdges {
+			if !liveEdges[e] {
+				pos := ""
+				if fr.Exec != nil && fr.Exec.fn != nil && e.a < len(fr.Exec.fn.Blocks) {
+					ins := fr.Exec.fn.Blocks[e.a].Instrs
+					for q := len(ins) - 1; q >= 0 && pos == ""; q-- {
+						pos = fr.Exec.posOf(ins[q].Pos())
+					}
+				}
+				dead = append(dead, fmt.Sprintf("block %d -> block %d (%s)", e.a, e.b, pos))
+			}
+		}
+		sort.Strings(dead)
+		allowed := 0
+		if fr.Ctr != nil {
+			allowed = fr.Ctr.DeadEdges
+		}
+		if len(dead) > allowed {
+			rep.Vacuous = append(rep.Vacuous, fmt.Sprintf("%s: %d control-flow edge(s) are infeasible under the assumptions in force (contract allows %d): %s", fr.Name, len(dead), allowed, strings.Join(dead, "; ")))
+		} else if len(dead) > 0 {
+			rep.DeadNotes = append(rep.DeadNotes, fmt.Sprintf("%s: infeasible edges accepted by the contract's `deadedges %d` clause: %s", fr.Name, allowed, strings.Join(dead, "; ")))
 		}
 		for _, n := range order {
 			s := byName[n]
@@ -195,7 +235,8 @@ func (rep *Report) finish(ck *Checker, verif string, writeEvidence bool, engineE
 	violations := 0
 	knownHit := 0
 	var knownLines []string
-	replayDir := filepath.Join(verif, "replays", rep.Prop)
+	outDir := envOr("RELIC_OUT", verif)
+	replayDir := filepath.Join(outDir, "replays", rep.Prop)
 	if writeEvidence {
 		os.RemoveAll(replayDir)
 	}
@@ -323,16 +364,16 @@ func (rep *Report) finish(ck *Checker, verif string, writeEvidence bool, engineE
 			"obligation_list":       all,
 			"known_findings":        kl,
 			"samples":               samples,
-			"vacuity":               map[string]any{"problems": rep.Vacuous, "checks": "requires satisfiable per function; at least one feasible return path per function (an `ensures false` probe must fail)"},
+			"vacuity":               map[string]any{"problems": rep.Vacuous, "checks": "requires satisfiable per function; every finished path gets a feasibility query; at least one feasible return path per function; every control-flow edge explored must lie on a feasible path (else VACUOUS)", "accepted_dead_edges": rep.DeadNotes},
 			"times_s":               rep.Times,
 		},
 		"assumptions": assumptions,
 		"wall_s":      rep.Wall,
 		"violations":  violations,
 	}
-	os.MkdirAll(filepath.Join(verif, "evidence"), 0o755)
+	os.MkdirAll(filepath.Join(outDir, "evidence"), 0o755)
 	b, _ := json.MarshalIndent(ev, "", " ")
-	os.WriteFile(filepath.Join(verif, "evidence", rep.Prop+".json"), append(b, '\n'), 0o644)
+	os.WriteFile(filepath.Join(outDir, "evidence", rep.Prop+".json"), append(b, '\n'), 0o644)
 	return code
 }
 
